@@ -205,6 +205,34 @@ def gen_cases(tier, rng):
     c.raw("scs", E.message(2, E.T_SET_CHUNK, 0, b"\xff\xff\xff\xff"))
     c.raw("b", E.chunk_header(0, 6, 0, 100, E.T_AUDIO, 1) + rb(500))
     yield Case(line(c.bytes()), cls="chunk-size")
+    # the chunk body is read in pieces of at most max(Len, initMsgLen): input that ends around every piece boundary
+    # (EOF inside a later piece is io.ErrUnexpectedEOF; the capacity depends on what has arrived)
+    for chunk, mlen in ((65536, 20000), (5000, 12000), (8192, 8192), (10000, 30000), (0xFFFFFFFF, 70000), (4097, 4097)):
+        head = pub_prefix().bytes() + E.message(2, E.T_SET_CHUNK, 0, E.set_chunk_size_body(chunk))
+        body = E.message(7, E.T_VIDEO, 1, b"\x27\x01" + bytes(mlen - 2), chunk=chunk if chunk < 0x80000000 else mlen)
+        cuts = set()
+        for b in (0, 1, 4095, 4096, 4097, 8191, 8192, 8193, 12287, 12288, 12289, 16383, 16384, 16385, 24576, 32768, 32769, 65536, mlen - 1, mlen):
+            cuts.add(12 + b)
+        for b in (5000, 5001, 10000, 10001, 10002, 12000, 20000):
+            cuts.add(12 + b)
+            cuts.add(13 + b)
+        for cut in sorted(x for x in cuts if 0 < x <= len(body)):
+            yield Case(line(data_tok(head) + "+" + data_tok(body[:cut])), cls="pieces")
+        # the same length as an aggregate (its buffer is kept after completion), complete and cut
+        agg = E.aggregate_body([(E.T_VIDEO, 0, b"\x27\x01" + bytes(mlen - 2))])
+        abody = E.message(4, E.T_AGG, 1, agg, chunk=chunk if chunk < 0x80000000 else len(agg))
+        for cut in (len(abody), len(abody) - 1, 12 + 4096, 12 + 8192, 12 + 8193):
+            if 0 < cut <= len(abody):
+                yield Case(line(data_tok(head) + "+" + data_tok(abody[:cut]) + ("+" + data_tok(ping) if cut == len(abody) else "")), cls="pieces")
+    # a header that shrinks / keeps / grows the length of a message in progress, at several fill levels
+    for have in (1, 100, 4096, 4097, 9000):
+        for newlen in (0, have - 1, have, have + 1, have + 5000):
+            if newlen < 0:
+                continue
+            head = pub_prefix().bytes() + E.message(2, E.T_SET_CHUNK, 0, E.set_chunk_size_body(have))
+            first = E.chunk_header(0, 7, 0, have + 10000, E.T_VIDEO, 1) + bytes(have)
+            nxt = E.chunk_header(1, 7, 0, newlen, E.T_VIDEO, 1) + bytes(min(have, 200))
+            yield Case(line(data_tok(head) + "+" + data_tok(first + nxt)), cls="pieces")
     # message length 2^24-1 declared on many chunk streams, never completed
     many = b"".join(E.chunk_header(0, 64 + i, 0, 0xFFFFFF, E.T_VIDEO, 1) + rb(128) for i in range(40 if not thorough else 400))
     yield Case(line(pre_tok["pub"] + "+" + data_tok(many)), cls="big-decl")
@@ -512,8 +540,8 @@ def declared_case(n):
 
 
 # peak RSS allowed for a lalprobe process that runs the declared-length cases (measured after the repair of
-# F-C04-5: 30..60 MiB, all of it the Go runtime and the harness; before it: 5.4 GiB)
-RSS_LIMIT_MIB = 600
+# F-C04-5: 10..50 MiB, most of it the Go runtime and the harness; with the declared length reserved again on type-0 headers only: 206 MiB for 4096 ids, 379 MiB for the sequence; before the repair 5.4 GiB)
+RSS_LIMIT_MIB = 150
 
 
 def _rss_guard(ctx, cases, violations, notes):
